@@ -2570,3 +2570,19 @@ Proof.
       unfold chunks4_contains, cluster_list_bytes in Ec. eapply chunks4_any_In_rev; eauto. }
   rewrite Hdrop. reflexivity.
 Qed.
+
+(* ================================================================ the RTC filter is a wrapper around the policy *)
+(* process_nlri_change asks RtcFilter::allows about the attributes of the path as stored,
+   the model's with_rtc about the attributes after pre_policy_defaults: the same answer,
+   because allows reads EXTENDED_COMMUNITY attributes only and pre_policy_defaults
+   removes MED attributes only *)
+Lemma rtc_allows_pre_policy : forall acc rts x attrs nh fam il,
+  rtc_allows acc rts (fst (pre_policy_defaults x attrs nh fam il)) = rtc_allows acc rts attrs.
+Proof.
+  intros acc rts x attrs nh fam il. unfold pre_policy_defaults. cbn [fst].
+  destruct (role_eqb (x_role x) Ebgp); [|reflexivity].
+  unfold rtc_allows. f_equal. induction attrs as [|a l IH]; [reflexivity|].
+  cbn [filter]. destruct (a_code a =? MED) eqn:E; cbn [negb existsb].
+  - rewrite IH. apply N.eqb_eq in E. rewrite E. cbn. reflexivity.
+  - rewrite IH. reflexivity.
+Qed.
